@@ -488,6 +488,34 @@ Proof.
   - destruct (sort_fib_sorted e' Hnd) as [Hs' _]. rewrite Hs', sort_fib_forallb, Hk'. reflexivity.
 Qed.
 
+Lemma nodupb_NoDup l : nodupb l = true -> NoDup l.
+Proof.
+  induction l as [|x l IH]; intros H; [constructor|].
+  cbn [nodupb] in H. apply andb_true_iff in H. destruct H as [Hx Hl].
+  constructor; [|apply IH; exact Hl].
+  intros Hin. apply negb_true_iff in Hx.
+  assert (existsb (Z.eqb x) l = true) as E.
+  { apply existsb_exists. exists x. split; [exact Hin|apply Z.eqb_refl]. }
+  congruence.
+Qed.
+
+Lemma upd_coords_fiber_g_wf n f :
+  forall lvl e, (lvl < n)%nat -> wf_fib n lvl e = true ->
+                wf_fib n lvl (upd_coords_fiber_g f e) = true.
+Proof.
+  intros lvl e Hlvl Hwf. unfold upd_coords_fiber_g.
+  set (e' := map (fun ct : Z * itree => (f (fst ct), snd ct)) e).
+  destruct (nodupb (map fst e')) eqn:Hnd; [|exact Hwf].
+  apply nodupb_NoDup in Hnd.
+  unfold wf_fib in *. apply andb_true_iff in Hwf. destruct Hwf as [Hs Hk].
+  assert (Hk' : forallb (fun ct : Z * itree => wf_i n (S lvl) (snd ct)) e' = true).
+  { unfold e'. rewrite forallb_forall in *. intros x Hin. apply in_map_iff in Hin.
+    destruct Hin as [y [<- Hy]]. cbn [snd]. apply Hk. exact Hy. }
+  destruct (nondecreasing (map fst e')) eqn:Hnon.
+  - rewrite (nondecreasing_NoDup_ssorted _ Hnon Hnd), Hk'. reflexivity.
+  - destruct (sort_fib_sorted e' Hnd) as [Hs' _]. rewrite Hs', sort_fib_forallb, Hk'. reflexivity.
+Qed.
+
 (* ---------- updatePayloads ---------- *)
 Lemma upd_payloads_fiber_wf n d k :
   forall lvl e, (lvl < n)%nat -> wf_fib n lvl e = true ->
@@ -711,6 +739,13 @@ Proof.
     apply local_wf; [exact Hs|]. intros e e' Hlvl Hwf Hd. inversion Hd; subst e'.
     apply below_wf; [|exact Hlvl|exact Hwf].
     intros lvl' e0 Hl' Hw'. apply upd_coords_fiber_wf; assumption.
+  - (* OUpdCoordsTbl *)
+    destruct (Nat.ltb (length path + depth) (nranks s)); [|exact Hs].
+    destruct (fiber_at path (root_es s)) as [es0|]; [|exact Hs].
+    destruct (distinct_below depth (tbl_fn tbl off) es0); [|exact Hs].
+    apply local_wf; [exact Hs|]. intros e e' Hlvl Hwf Hd. inversion Hd; subst e'.
+    apply below_wf; [|exact Hlvl|exact Hwf].
+    intros lvl' e0 Hl' Hw'. apply upd_coords_fiber_g_wf; assumption.
   - (* OUpdPayloads *)
     destruct (Nat.eqb (S (length path + depth)) (nranks s)); [|exact Hs].
     apply local_wf; [exact Hs|]. intros e e' Hlvl Hwf Hd. inversion Hd; subst e'.
@@ -793,6 +828,10 @@ Proof.
     + apply Hl. left; reflexivity.
     + apply Hl. right; reflexivity.
   - destruct (Nat.ltb (length path + depth) (nranks s) && ((sg =? 1) || (sg =? -1))); [|reflexivity].
+    apply local_unchanged. exact H.
+  - destruct (Nat.ltb (length path + depth) (nranks s)); [|reflexivity].
+    destruct (fiber_at path (root_es s)) as [es0|]; [|reflexivity].
+    destruct (distinct_below depth (tbl_fn tbl off) es0); [|reflexivity].
     apply local_unchanged. exact H.
   - destruct (Nat.eqb (S (length path + depth)) (nranks s)); [|reflexivity].
     apply local_unchanged. exact H.
